@@ -113,8 +113,22 @@ def build_data(dspec):
             kw["t_ref"] = False
         elif dspec["t_ref"] is not None and len(dspec["surveys"]) == 1:
             kw["t_ref"] = Time(dspec.get("t_ref_input", dspec["t_ref"]), format="mjd", scale=dspec.get("t_ref_scale", "tcb"))
-        objs.append(RVData(np.array(s["t"]), np.array(s["rv"]) * U(s["unit"]),
-                           np.array(s["err"]) * U(s.get("err_unit", s["unit"])), **kw))
+        # how the caller's arrays are laid out in memory (same numbers): big-endian (FITS columns), read-only, strided views
+        ak = dspec.get("array_kind", "plain")
+
+        def arr(x):
+            a = np.array(x, dtype=float)
+            if ak == "bigendian":
+                return a.astype(">f8")
+            if ak == "readonly":
+                a.setflags(write=False)
+                return a
+            if ak == "strided":
+                b = np.zeros(2 * len(a))
+                b[::2] = a
+                return b[::2]
+            return a
+        objs.append(RVData(arr(s["t"]), arr(s["rv"]) * U(s["unit"]), arr(s["err"]) * U(s.get("err_unit", s["unit"])), **kw))
     if dspec["form"] == "single":
         return objs[0]
     if dspec["form"] == "list":
